@@ -61,6 +61,9 @@ pub struct PageProg {
     pub rotation: i32,
     pub images: Vec<ImgSpec>,
     pub calls: Vec<Call>,
+    /// /Contents of text annotations on the page (strings outside content streams and Info)
+    #[serde(default)]
+    pub annots: Vec<String>,
 }
 
 #[derive(Clone, Debug, Serialize, Deserialize, PartialEq, Default)]
@@ -171,6 +174,11 @@ pub fn build_page(p: &PageProg) -> Result<Page, String> {
     }
     for im in &p.images {
         page.add_image(im.name.clone(), make_image(im)?);
+    }
+    for (k, contents) in p.annots.iter().enumerate() {
+        use oxidize_pdf::annotations::{Annotation, AnnotationType};
+        let rect = oxidize_pdf::Rectangle::new(oxidize_pdf::Point::new(10.0 + 25.0 * k as f64, 10.0), oxidize_pdf::Point::new(30.0 + 25.0 * k as f64, 30.0));
+        page.add_annotation(Annotation::new(AnnotationType::Text, rect).with_contents(contents.clone()));
     }
     for c in &p.calls {
         match c {
@@ -327,7 +335,12 @@ pub fn call(n_images: usize) -> impl Strategy<Value = Call> {
 }
 
 pub fn img_spec(name: BoxedStrategy<String>) -> impl Strategy<Value = ImgSpec> {
-    (name, 0u8..3, 1u32..12, 1u32..12, any::<u32>()).prop_map(|(name, kind, w, h, seed)| ImgSpec { name, kind, w, h, seed })
+    // names, sizes and (rarely) pixel seeds come from small pools half of the time, so that different pages of a
+    // document carry same-named, same-sized images with different pixels, or genuinely identical ones
+    let name = prop_oneof![3 => prop::sample::select(vec!["Im0", "Im1", "Im2"]).prop_map(|s| s.to_string()), 2 => name];
+    let dims = prop_oneof![1 => prop::sample::select(vec![(2u32, 2u32), (3, 2), (6, 4)]), 1 => (1u32..12, 1u32..12)];
+    let seed = prop_oneof![5 => any::<u32>(), 1 => Just(7u32)];
+    (name, 0u8..3, dims, seed).prop_map(|(name, kind, (w, h), seed)| ImgSpec { name, kind, w, h, seed })
 }
 
 pub fn page_prog() -> impl Strategy<Value = PageProg> {
@@ -342,7 +355,7 @@ pub fn page_prog() -> impl Strategy<Value = PageProg> {
         let mut seen = std::collections::BTreeSet::new();
         images.retain(|i| seen.insert(i.name.clone()));
         let n = images.len();
-        prop::collection::vec(call(n), 0..30).prop_map(move |calls| PageProg { w, h, rotation, images: images.clone(), calls })
+        (prop::collection::vec(call(n), 0..30), prop_oneof![3 => Just(vec![]), 1 => prop::collection::vec("[A-Za-z0-9 ().,-]{1,20}", 1..3)]).prop_map(move |(calls, annots)| PageProg { w, h, rotation, images: images.clone(), calls, annots })
     })
 }
 
@@ -353,6 +366,23 @@ pub fn info() -> impl Strategy<Value = Info> {
 
 pub fn prog() -> impl Strategy<Value = Prog> {
     (prop::collection::vec(page_prog(), 1..5), info()).prop_map(|(pages, info)| Prog { pages, info })
+}
+
+/// Documents with many small pages: enough non-stream objects (page dictionaries) for the writer to fill more than
+/// one object stream (it starts a new one every 100 members), which `prog()`'s 1–4 pages never reach.
+pub fn prog_many() -> impl Strategy<Value = Prog> {
+    fn page() -> impl Strategy<Value = PageProg> {
+        (prop::sample::select(vec![(595.0, 842.0), (612.0, 792.0), (200.0, 100.0)]), prop::sample::select(vec![0, 0, 90]), prop::collection::vec((0u8..12, coord(), coord(), ascii_text()).prop_map(|(font, x, y, text)| Call::Text { font, size: 12.0, x, y, text }), 0..2))
+            .prop_map(|((w, h), rotation, calls)| PageProg { w, h, rotation, images: vec![], calls, annots: vec![] })
+    }
+    // sizes around the multiples of the object-stream capacity and in between
+    let n = prop_oneof![2 => 90usize..130, 2 => 190usize..230, 1 => 40usize..320];
+    (n.prop_flat_map(|n| prop::collection::vec(page(), n..=n)), info()).prop_map(|(pages, info)| Prog { pages, info })
+}
+
+/// object-stream configurations only
+pub fn cfg_objstm() -> impl Strategy<Value = Cfg> {
+    (any::<bool>(), 1u8..4).prop_map(|(compress, version)| Cfg { xref_streams: true, object_streams: true, compress, version })
 }
 
 /// like `cfg` but with object streams in ~3 % of the cases (for checks that open each file many times)
